@@ -37,6 +37,10 @@ func CalleeName(c ssa.CallInstruction) string {
 		return FuncName(f)
 	case *ssa.MakeClosure:
 		return FuncName(f.Fn.(*ssa.Function))
+	case *ssa.UnOp:
+		if fn := constFuncGlobal(f); fn != nil {
+			return FuncName(fn)
+		}
 	}
 	return "dynamic"
 }
@@ -72,8 +76,87 @@ func StaticCallee(c ssa.CallInstruction) *ssa.Function {
 		return f
 	case *ssa.MakeClosure:
 		return f.Fn.(*ssa.Function)
+	case *ssa.UnOp:
+		if fn := constFuncGlobal(f); fn != nil {
+			return fn
+		}
 	}
 	return nil
+}
+
+var constFuncCache = map[*ssa.Global]*ssa.Function{}
+
+// constFuncGlobal: v loads a package-level variable of function type that is assigned exactly once in the program — in
+// its package's initialiser, a named function (`var osOpen = os.Open`) — and whose address is never taken otherwise:
+// a call through it is a call of that function.
+func constFuncGlobal(v *ssa.UnOp) *ssa.Function {
+	if v.Op != token.MUL {
+		return nil
+	}
+	g, ok := v.X.(*ssa.Global)
+	if !ok || g.Pkg == nil {
+		return nil
+	}
+	if fn, done := constFuncCache[g]; done {
+		return fn
+	}
+	constFuncCache[g] = nil
+	if _, isSig := ptrElem(g.Type()).Underlying().(*types.Signature); !isSig {
+		return nil
+	}
+	var val *ssa.Function
+	n := 0
+	okUses := true
+	for _, m := range g.Pkg.Members {
+		fn, ok := m.(*ssa.Function)
+		if !ok {
+			continue
+		}
+		var fns []*ssa.Function
+		fns = append(fns, fn)
+		fns = append(fns, fn.AnonFuncs...)
+		for _, f := range fns {
+			for _, b := range f.Blocks {
+				for _, in := range b.Instrs {
+					switch x := in.(type) {
+					case *ssa.Store:
+						if x.Addr == ssa.Value(g) {
+							n++
+							if f.Name() != "init" {
+								okUses = false
+							}
+							if fv, ok := x.Val.(*ssa.Function); ok {
+								val = fv
+							} else {
+								okUses = false
+							}
+						}
+					case *ssa.UnOp:
+					default:
+						var buf [8]*ssa.Value
+						for _, op := range in.Operands(buf[:0]) {
+							if *op == ssa.Value(g) {
+								okUses = false // address taken some other way
+							}
+						}
+					}
+				}
+			}
+		}
+	}
+	// methods of the package's types
+	if n == 1 && okUses && val != nil {
+		constFuncCache[g] = val
+		return val
+	}
+	return nil
+}
+
+func ptrElem(t types.Type) types.Type {
+	if p, ok := t.Underlying().(*types.Pointer); ok {
+		return p.Elem()
+	}
+	return t
 }
 
 // ResolveFuncValue resolves a function value that is a constant of the program — a function, a closure, or a
